@@ -1,4 +1,465 @@
 package gvc
 
-func cmdCheck(args []string) int  { return 2 }
-func cmdReplay(args []string) int { return 2 }
+import (
+	"bufio"
+	"encoding/json"
+	"flag"
+	"fmt"
+	"os"
+	"path/filepath"
+	"sort"
+	"strconv"
+	"strings"
+	"time"
+)
+
+func hasTag(tags []string, t string) bool {
+	for _, x := range tags {
+		if x == t {
+			return true
+		}
+	}
+	return false
+}
+
+// KnownFinding is one entry of /verif/KNOWN_FINDINGS.jsonl.
+type KnownFinding struct {
+	Property string `json:"property"`
+	Func     string `json:"func"`             // canonical function name
+	Kind     string `json:"kind"`             // obligation kind
+	Clause   string `json:"clause,omitempty"` // substring of the obligation's stable detail (e.g. "ensures.3", "field:Watch")
+	Case     string `json:"case,omitempty"`   // spec expression: the failing inputs; obligation is re-posed with !case
+	What     string `json:"what"`
+	Fixed    string `json:"fixed,omitempty"` // "fixed: property=<id> <commit> <what>": suppresses nothing
+}
+
+func loadKnown(path string) ([]KnownFinding, error) {
+	f, err := os.Open(path)
+	if err != nil {
+		if os.IsNotExist(err) {
+			return nil, nil
+		}
+		return nil, err
+	}
+	defer f.Close()
+	var out []KnownFinding
+	sc := bufio.NewScanner(f)
+	sc.Buffer(make([]byte, 1<<20), 1<<20)
+	for sc.Scan() {
+		line := strings.TrimSpace(sc.Text())
+		if line == "" || strings.HasPrefix(line, "#") || strings.HasPrefix(line, "//") {
+			continue
+		}
+		var k KnownFinding
+		if err := json.Unmarshal([]byte(line), &k); err != nil {
+			return nil, fmt.Errorf("%s: %v", path, err)
+		}
+		out = append(out, k)
+	}
+	return out, nil
+}
+
+// stableKey identifies an obligation independently of line numbers and return-site ordinals.
+func (o *Obligation) stableKey() string {
+	name := o.Name
+	if i := strings.Index(name, "/"+o.Kind+"#"); i >= 0 {
+		rest := name[i+len(o.Kind)+2:]
+		if j := strings.Index(rest, "/"); j >= 0 {
+			rest = rest[j+1:]
+		} else {
+			rest = ""
+		}
+		// drop "return#k/" from ensures obligations
+		if strings.HasPrefix(rest, "return#") {
+			if j := strings.Index(rest, "/"); j >= 0 {
+				rest = rest[j+1:]
+			}
+		}
+		return o.Kind + "/" + rest
+	}
+	return o.Kind
+}
+
+func (k *KnownFinding) matches(o *Obligation, prop string) bool {
+	if k.Fixed != "" || k.Property != prop {
+		return false
+	}
+	if k.Func != "" && k.Func != o.Func && !matchCallee(o.Func, k.Func) {
+		return false
+	}
+	if k.Kind != "" && k.Kind != o.Kind {
+		return false
+	}
+	if k.Clause != "" && !strings.Contains(o.stableKey(), k.Clause) {
+		return false
+	}
+	return true
+}
+
+type Evidence struct {
+	PropertyID  string         `json:"property_id"`
+	Tier        string         `json:"tier"`
+	Seed        int            `json:"seed"`
+	Level       string         `json:"level"`
+	Coverage    map[string]any `json:"coverage"`
+	Assumptions []string       `json:"assumptions"`
+	WallS       float64        `json:"wall_s"`
+	Violations  int            `json:"violations"`
+}
+
+func cmdCheck(args []string) int {
+	fs := flag.NewFlagSet("check", flag.ContinueOnError)
+	tier := fs.String("tier", "", "quick|thorough")
+	timeout := fs.Int("timeout", 0, "solver timeout ms")
+	dump := fs.String("dump", "", "directory for SMT files")
+	verbose := fs.Bool("v", false, "verbose")
+	var prop string
+	if len(args) > 0 && !strings.HasPrefix(args[0], "-") {
+		prop = args[0]
+		args = args[1:]
+	}
+	if err := fs.Parse(args); err != nil {
+		return 2
+	}
+	if prop == "" && fs.NArg() > 0 {
+		prop = fs.Arg(0)
+	}
+	if prop == "" {
+		fmt.Fprintln(os.Stderr, "usage: gvc check <property> [--tier quick|thorough]")
+		return 2
+	}
+	if *tier == "" {
+		*tier = os.Getenv("VERIF_TIER")
+	}
+	if *tier != "thorough" {
+		*tier = "quick"
+	}
+	seed, _ := strconv.Atoi(os.Getenv("VERIF_SEED"))
+	if *timeout == 0 {
+		*timeout = 10000
+		if *tier == "thorough" {
+			*timeout = 30000
+		}
+	}
+	t0 := time.Now()
+	w, err := loadWorld()
+	if err != nil {
+		fmt.Printf("ERROR: cannot load %s: %v\n", RepoDir, err)
+		fmt.Printf("VIOLATION property=%s replay=%s no-failing-input-found\n", prop, writeLoadFailure(prop, err))
+		return 1
+	}
+	loadS := time.Since(t0).Seconds()
+	res := w.CheckProperty(prop, *tier, *timeout, *dump, *verbose)
+	res.Seed = seed
+	res.LoadS = loadS
+	res.WallS = time.Since(t0).Seconds()
+	return res.Report()
+}
+
+func writeLoadFailure(prop string, err error) string {
+	dir := filepath.Join(VerifDir, "replays", prop)
+	os.MkdirAll(dir, 0o755)
+	p := filepath.Join(dir, "load-failure.json")
+	b, _ := json.MarshalIndent(map[string]any{"obligation": "load", "error": err.Error()}, "", " ")
+	os.WriteFile(p, b, 0o644)
+	return p
+}
+
+type PropResult struct {
+	Prop        string
+	Tier        string
+	Seed        int
+	W           *World
+	VCs         []*VC
+	Items       []SolveItem
+	Trusted     []string
+	GenErrors   []string
+	Known       []KnownFinding
+	LoadS       float64
+	WallS       float64
+	Structural  []*Obligation
+	extraAssume []string
+}
+
+// CheckProperty generates and discharges every obligation tagged with the property.
+func (w *World) CheckProperty(prop, tier string, timeoutMs int, dump string, verbose bool) *PropResult {
+	r := &PropResult{Prop: prop, Tier: tier, W: w}
+	known, err := loadKnown(filepath.Join(VerifDir, "KNOWN_FINDINGS.jsonl"))
+	if err != nil {
+		r.GenErrors = append(r.GenErrors, err.Error())
+	}
+	r.Known = known
+	w.expandStructural()
+	var names []string
+	for n, fc := range w.C.Funcs {
+		if fc.External || !fc.Tags[prop] {
+			continue
+		}
+		names = append(names, n)
+	}
+	sort.Strings(names)
+	for _, n := range names {
+		fc := w.C.Funcs[n]
+		fn := w.P.Funcs[n]
+		if fn == nil {
+			o := &Obligation{Name: n + "/contract-binding#1", Func: n, Kind: "contract-binding", Tags: []string{prop}, Status: "failed",
+				Detail: map[string]string{"why": "contract names a function that does not exist in the tree"}, File: fc.File, Line: fc.Line}
+			r.Structural = append(r.Structural, o)
+			continue
+		}
+		if fc.Trusted {
+			r.Trusted = append(r.Trusted, n)
+			continue
+		}
+		vc := NewVC(w.P, w.C, fn, fc)
+		if err := vc.Generate(); err != nil {
+			r.GenErrors = append(r.GenErrors, err.Error())
+			continue
+		}
+		r.VCs = append(r.VCs, vc)
+		for _, o := range vc.Obls {
+			if hasTag(o.Tags, prop) {
+				r.Items = append(r.Items, SolveItem{vc, o})
+			}
+		}
+	}
+	SolveAll(r.Items, SolveOpts{TimeoutMs: timeoutMs, AllSolvers: tier == "thorough", DumpDir: dump})
+	// known findings: re-pose failing obligations without the known case
+	for _, it := range r.Items {
+		o := it.O
+		if o.Status != "failed" && o.Status != "unknown" {
+			continue
+		}
+		for i := range r.Known {
+			k := &r.Known[i]
+			if !k.matches(o, prop) {
+				continue
+			}
+			if k.Case == "" || k.Case == "true" {
+				o.Known = k.What
+				break
+			}
+			if o.Env == nil {
+				continue
+			}
+			if it.VC.reposeWithout(o, k.Case, timeoutMs) {
+				o.Known = k.What
+				break
+			}
+		}
+	}
+	return r
+}
+
+// reposeWithout re-checks a failed obligation assuming the known failing case is excluded.
+func (vc *VC) reposeWithout(o *Obligation, caseExpr string, timeoutMs int) (ok bool) {
+	defer func() {
+		if r := recover(); r != nil {
+			ok = false
+		}
+	}()
+	e, err := ParseSpec(caseExpr)
+	if err != nil {
+		return false
+	}
+	saveCons := vc.cons
+	term := vc.trBool(e, o.Env, nil)
+	extra := vc.cons[len(saveCons):]
+	vc.cons = saveCons
+	o2 := *o
+	o2.Goal = fmt.Sprintf("(or %s %s)", term, o.Goal)
+	q := vc.Query(&o2, false)
+	if len(extra) > 0 {
+		// literals introduced while translating the case (string lengths etc.)
+		var b strings.Builder
+		for _, c := range extra {
+			b.WriteString("(assert " + c + ")\n")
+		}
+		q = strings.Replace(q, "(check-sat)", b.String()+"(check-sat)", 1)
+	}
+	for _, s := range Solvers {
+		r := runSolver(s, q, timeoutMs)
+		if r.status == "unsat" {
+			return true
+		}
+		if r.status == "sat" {
+			return false
+		}
+	}
+	return false
+}
+
+func (r *PropResult) Report() int {
+	prop := r.Prop
+	all := append([]*Obligation{}, r.Structural...)
+	for _, it := range r.Items {
+		all = append(all, it.O)
+	}
+	nOb, nDis, nKnown, nViol, nCover, nVac := 0, 0, 0, 0, 0, 0
+	solverCount := map[string]int{}
+	solverMs := map[string]int64{}
+	var samples []any
+	var violations []*Obligation
+	knownSeen := map[string]bool{}
+	funcs := map[string]bool{}
+	var slowest int64
+	for _, o := range all {
+		funcs[o.Func] = true
+		if o.Cover {
+			nCover++
+			if o.Status == "cover-vacuous" {
+				nVac++
+				fmt.Printf("VACUOUS %s: assumptions of %s are contradictory (no return reachable)\n", o.Name, o.Func)
+			}
+			continue
+		}
+		nOb++
+		if o.Ms > slowest {
+			slowest = o.Ms
+		}
+		switch o.Status {
+		case "discharged":
+			nDis++
+			solverCount[o.Solver]++
+			solverMs[o.Solver] += o.Ms
+			if len(samples) < 6 {
+				samples = append(samples, map[string]any{"obligation": o.Name, "clause": o.Text, "at": o.SrcPos, "solver": o.Solver, "ms": o.Ms, "smt_bytes": o.SMTSize})
+			}
+		default:
+			if o.Known != "" {
+				nKnown++
+				if !knownSeen[o.Known] {
+					knownSeen[o.Known] = true
+					fmt.Printf("KNOWN-FINDING: property=%s %s\n", prop, o.Known)
+				}
+				samples = append(samples, map[string]any{"obligation": o.Name, "status": "known-finding", "what": o.Known})
+				continue
+			}
+			nViol++
+			violations = append(violations, o)
+		}
+	}
+	for _, ge := range r.GenErrors {
+		fmt.Printf("ERROR: %s\n", ge)
+	}
+	for _, o := range violations {
+		path := writeReplay(r, o)
+		suffix := ""
+		if o.Detail["replayed"] != "true" {
+			suffix = " no-failing-input-found"
+		}
+		fmt.Printf("  failed obligation %s (%s) at %s: %s\n", o.Name, o.Status, o.SrcPos, o.Text)
+		if len(o.Model) > 0 {
+			fmt.Printf("    counterexample: %s\n", modelSummary(o.Model, 16))
+		}
+		fmt.Printf("VIOLATION property=%s replay=%s%s\n", prop, path, suffix)
+	}
+	// evidence
+	var fl []string
+	for f := range funcs {
+		fl = append(fl, f)
+	}
+	sort.Strings(fl)
+	abstracted := map[string]int{}
+	var assumptions []string
+	usedContracts := map[string]bool{}
+	for _, vc := range r.VCs {
+		for k, n := range vc.Abstract {
+			abstracted[k] += n
+		}
+		for k := range vc.usedContracts {
+			usedContracts[k] = true
+		}
+	}
+	for _, t := range r.Trusted {
+		assumptions = append(assumptions, "trusted (unverified) contract on repository function "+t)
+	}
+	var uc []string
+	for k := range usedContracts {
+		uc = append(uc, k)
+	}
+	sort.Strings(uc)
+	for _, k := range uc {
+		assumptions = append(assumptions, "assumed contract: "+k)
+	}
+	var ab []string
+	for k, n := range abstracted {
+		ab = append(ab, fmt.Sprintf("%s (x%d)", k, n))
+	}
+	sort.Strings(ab)
+	assumptions = append(assumptions,
+		"machine integers treated as mathematical integers (no overflow check)",
+		"string contents opaque: only length, equality, concatenation and assumed library contracts",
+		"append returns a fresh backing array (no aliasing)",
+		"outside the C16 sweep, absence of run-time panics is assumed (assert-then-assume)",
+		"interference by other goroutines only through monotone ghost facts, lock invariants and primitive contracts (rely/guarantee argument on paper, DESIGN 2.5)",
+		"go/ssa, go/types, the gvc translation and the SMT solvers are trusted")
+	assumptions = append(assumptions, r.extraAssume...)
+	if len(samples) == 0 {
+		samples = append(samples, "no obligations")
+	}
+	cov := map[string]any{
+		"obligations":            nOb,
+		"discharged":             nDis,
+		"known_findings":         nKnown,
+		"violations":             nViol,
+		"covers_checked":         nCover,
+		"covers_vacuous":         nVac,
+		"checker_cmd":            fmt.Sprintf("bin/gvc check %s --tier %s", prop, r.Tier),
+		"trusted_base":           []string{"gvc (SSA->SMT VC generator)", "golang.org/x/tools/go/ssa v0.29.0", "go/types", "z3 5.1.0", "z3 4.8.12", "cvc5 1.0.3"},
+		"functions_under_contract": fl,
+		"trusted_contracts":      r.Trusted,
+		"by_solver":              solverCount,
+		"solver_ms":              solverMs,
+		"slowest_obligation_ms":  slowest,
+		"abstracted":             ab,
+		"samples":                samples,
+		"load_s":                 r.LoadS,
+		"evaluations":            nOb,
+		"distinct_nontrivial":    nDis,
+		"rule":                   "one SMT query per proof obligation generated from the SSA of /repo's working tree; distinct = distinct obligation names discharged (unsat)",
+		"generation_errors":      r.GenErrors,
+	}
+	ev := Evidence{PropertyID: prop, Tier: r.Tier, Seed: r.Seed, Level: "proof", Coverage: cov, Assumptions: assumptions, WallS: r.WallS, Violations: nViol}
+	os.MkdirAll(filepath.Join(VerifDir, "evidence"), 0o755)
+	b, _ := json.MarshalIndent(ev, "", " ")
+	os.WriteFile(filepath.Join(VerifDir, "evidence", prop+".json"), b, 0o644)
+	fmt.Printf("%s: %d obligations, %d discharged, %d known findings, %d violations, %d covers (%d vacuous), %d functions, %.1fs\n",
+		prop, nOb, nDis, nKnown, nViol, nCover, nVac, len(fl), r.WallS)
+	if len(r.GenErrors) > 0 || nVac > 0 {
+		fmt.Printf("BROKEN: the check could not be carried out as designed\n")
+		return 2
+	}
+	if nOb == 0 {
+		fmt.Printf("BROKEN: no obligations were generated for %s\n", prop)
+		return 2
+	}
+	if nViol > 0 {
+		return 1
+	}
+	return 0
+}
+
+func writeReplay(r *PropResult, o *Obligation) string {
+	dir := filepath.Join(VerifDir, "replays", r.Prop)
+	os.MkdirAll(dir, 0o755)
+	p := filepath.Join(dir, sanitizeFile(o.Name)+".json")
+	rep := map[string]any{
+		"property":   r.Prop,
+		"obligation": o.Name,
+		"kind":       o.Kind,
+		"function":   o.Func,
+		"clause":     o.Text,
+		"clause_at":  fmt.Sprintf("%s:%d", o.File, o.Line),
+		"code_at":    o.SrcPos,
+		"status":     o.Status,
+		"solver":     o.Solver,
+		"solver_output": o.Raw,
+		"model":      o.Model,
+		"detail":     o.Detail,
+	}
+	tryReplay(r, o, rep)
+	b, _ := json.MarshalIndent(rep, "", " ")
+	os.WriteFile(p, b, 0o644)
+	return p
+}
